@@ -342,8 +342,11 @@ def sigmoid(x, y):
     """
     z = (x.cpu().numpy()) + 1j * (y.cpu().numpy())
 
-    out = np.exp(z) / (1 + np.exp(z))
-    out = torch.tensor([np.real(out), np.imag(out)]).to(x)
+    # exp of an argument with non-positive real part only: never overflows
+    neg = np.real(z) < 0
+    ez = np.exp(np.where(neg, z, -z))
+    out = np.where(neg, ez / (1 + ez), 1 / (1 + ez))
+    out = torch.tensor(np.array([np.real(out), np.imag(out)])).to(x)
 
     return out
 
